@@ -6,7 +6,7 @@ is that every output has the exponent C03 states and that no operation anywhere 
 two known, different exponents (such a term is not covariant) and no data-dependent decision is variant."""
 from fractions import Fraction as F
 
-from ..frontend import AnalysisError, loc
+from ..frontend import AnalysisError, loc, normalise
 from ..values import *      # noqa
 from .. import contexts as C
 from ..d1rules import (psd_classes, ctor_args, check_sink, report_conflicts, blocked, PSD_FIELD)
@@ -172,6 +172,14 @@ def run(prog, rep, tier='quick'):
                 if blocked(rep, rule, fq, label, itp):
                     continue
                 nconf = report_conflicts(rep, rule, itp, comps, label, seen)
+                for e_ in [e_ for e_ in itp.events if e_[0] == 'unbounded-degree']:
+                    k_ = ('unbounded', e_[3], normalise(e_[1]))
+                    if k_ not in seen and not phase:
+                        seen.add(k_)
+                        rep.violation(rule, e_[3], normalise(e_[1])[:70], 'an intermediate of magnitude degree %s, growing with an array length: '
+                                      'for data scaled by c it carries c**n and under- or overflows (log(0), inf) for scales moderately far '
+                                      'from 1, so the decision taken from it changes with the amplitude although the formula is homogeneous; '
+                                      'take the root / the logarithm element by element before combining' % e_[2], loc(e_[3].split('.')[0], e_[1]))
                 if v is None:
                     rep.undecided(rule, fq, 'no returning path [%s]' % label, 'the abstract run never returns')
                     continue
